@@ -11,6 +11,7 @@ fn main() {
 			let cases = read_cases(&args[3]);
 			let mut out = Out::create(&args[4]);
 			match args[2].as_str() {
+				"c19" => vh::c19_http_gate::replay(&cases, &mut out),
 				"c20" => vh::c20_params_builder::replay(&cases, &mut out),
 				"c01" => vh::c01_single::replay(&cases, &mut out),
 				"c02" => vh::c02_batch::replay(&cases, &mut out),
